@@ -322,6 +322,96 @@ def judge_bil(inp, obs, lr):
     return None
 
 
+# ------------------------------------------------------------------ library level: vectorised last-axis formulas
+from vlib import q as Q
+
+
+def gen_vec(rng, n):
+    shapes = N.all_shapes(3)
+    for c in range(n):
+        op = ["p2k", "k2p", "normalize", "scale_last"][c % 4]
+        o = rng.choice(shapes)
+        d = rng.choice([1, 2, 3])
+        cnt = int(np.prod(o)) if o else 1
+        if op == "scale_last":
+            x = N.small(rng, o + [d])
+            f = N.small(rng, o if o else [1])
+            yield {"op": op, "x": N.enc(x), "f": N.enc(f)}
+            continue
+        flat = []
+        for _ in range(cnt):
+            p = Q.rball(rng, d, F(9, 10), 6)
+            a = sum(t * t for t in p)
+            if op == "p2k":
+                flat += p
+            elif op == "k2p":
+                flat += [2 * t / (1 + a) for t in p]          # Klein point of a rational Poincare point: sqrt|1-|k|^2| rational
+            else:
+                kind = rng.random()
+                if kind < 0.15:
+                    s = Q.rsphere(rng, d) if d > 1 else [F(1)]
+                    flat += [F(2)] + [2 * t for t in s]          # null row: must be left alone
+                else:
+                    lam = F(rng.randint(1, 5), rng.randint(1, 3)) * rng.choice([1, -1])
+                    flat += [lam * (1 + a)] + [lam * 2 * t for t in p]    # <x,x> = -lam^2 (1-a)^2
+        if op == "normalize":
+            J = np.diag([-1.0] + [1.0] * d)
+            yield {"op": op, "v": N.enc_q(o + [d + 1], flat), "form": N.enc(J)}
+        else:
+            yield {"op": op, "x": N.enc_q(o + [d], flat)}
+
+
+def run_vec(inp):
+    op = inp["op"]
+    if op == "scale_last":
+        x, f = N.dec(inp["x"]), N.dec(inp["f"])
+        r = (x.T * f.T).T
+    elif op == "p2k":
+        r = H.poincare_to_kleinian(N.dec(inp["x"]))
+    elif op == "k2p":
+        r = H.kleinian_to_poincare(N.dec(inp["x"]))
+    else:
+        v = N.dec(inp["v"])
+        utils.normalize(v, N.dec(inp["form"]))
+        r = v                                    # the caller's array after the in-place write
+    return {"r": np.asarray(r, dtype=float).tolist(), "shape": list(np.asarray(r).shape)}
+
+
+def lean_vec(inp, obs):
+    d = dict(inp)
+    d["op"] = "c04." + inp["op"]
+    return [d]
+
+
+def judge_vec(inp, obs, lr):
+    res = lr[0]
+    if "exc" in obs:
+        return None if "err" in res else {"expected": res, "observed": obs, "tags": {"op": inp["op"], "impl_raises": obs["exc"]}}
+    if "err" in res:
+        return {"expected": res, "observed": obs["shape"], "tags": {"op": inp["op"], "model_err": res["err"][:40]}}
+    m = N.dec(res["ok"])
+    if list(m.shape) != obs["shape"]:
+        return {"expected": {"model_shape": list(m.shape)}, "observed": obs["shape"], "tags": {"op": inp["op"], "shape": True}}
+    r = np.array(obs["r"])
+    if inp["op"] == "normalize":
+        # a row that is null in exact arithmetic is left alone by the model; in floats its norm may round to 1e-17 instead of 0 and the row is
+        # then divided by a tiny positive number: still the same projective point with a positive factor, which is all the property asks
+        from props._hist import rows_pos_eq
+        sh, flat = N.dec_q(inp["v"])
+        d = sh[-1]
+        rows = [flat[k:k + d] for k in range(0, len(flat), d)]
+        for k, row in enumerate(rows):
+            nn = -row[0] * row[0] + sum(t * t for t in row[1:])
+            a, b = r.reshape(-1, d)[k], m.reshape(-1, d)[k]
+            ok = rows_pos_eq(a, b, 1e-7) if nn == 0 else O.allclose(a, b, 1e-11)
+            if not ok:
+                return {"expected": {"model_row": b.tolist()}, "observed": {"impl_row": a.tolist()}, "tags": {"op": "normalize", "null_row": nn == 0}}
+        return None
+    if not O.allclose(r, m, 1e-11):
+        return {"expected": {"model": m.tolist()}, "observed": obs["r"], "tags": {"op": inp["op"]}}
+    return None
+
+
 CLAUSES = [
     Clause("nd_primitives", "corr", gen_prim, run_prim, judge_eq, lean=lean_prim, site="numpy (statement of array semantics)",
            budget={"quick": 17 * 40, "thorough": 17 * 600},
@@ -336,4 +426,10 @@ CLAUSES = [
            what="utils.apply_bilinear (with and without form, broadcasting outer shapes) vs Lean applyBilinear and vs a per-unit loop"),
 ]
 
+CLAUSES += [
+    Clause("vectorised_corr", "corr", gen_vec, run_vec, judge_vec, lean=lean_vec, site="hyperbolic.poincare_to_kleinian/kleinian_to_poincare, utils.normalize, (x.T*f.T).T",
+           budget={"quick": 240, "thorough": 4000},
+           what="the literal ND models of the vectorised last-axis formulas (poincare_to_kleinian, kleinian_to_poincare, in-place utils.normalize incl. null rows, the (x.T*f.T).T idiom) "
+                "vs the numpy code on exact rational inputs of outer rank 0-3 (rank-0: the atleast_1d branch)"),
+]
 CLAUSES += O.c04_oracles()
